@@ -36,15 +36,24 @@ package prelude
 //@ ghost cacheLastAdd bool
 //@ ghost cacheLastKey string
 //@ ghost cacheLastCache ref
-//@ assume func github.com/keep-network/keep-common/pkg/cache.TimeCache.Add
-//@   modifies ghost.cacheAdds, ghost.cacheLastAdd, ghost.cacheLastKey, ghost.cacheLastCache
-//@   ensures ghost.cacheAdds == old(ghost.cacheAdds) + 1 && ghost.cacheLastAdd == result && ghost.cacheLastKey == item && ghost.cacheLastCache == recv
 //@ ghost cacheSeen bool
+// abstract contents of every cache, and the answer of the latest Has per cache
+//@ ghost tcContent mapof[ref]set[string]
+//@ ghost tcHit mapof[ref]bool
+//@ assume func github.com/keep-network/keep-common/pkg/cache.TimeCache.Add
+//@   modifies ghost.cacheAdds, ghost.cacheLastAdd, ghost.cacheLastKey, ghost.cacheLastCache, ghost.tcContent
+//@   ensures ghost.cacheAdds == old(ghost.cacheAdds) + 1 && ghost.cacheLastAdd == result && ghost.cacheLastKey == item && ghost.cacheLastCache == recv
+//@   ensures result == !(item in old(ghost.tcContent)[recv])
+//@   ensures forall c ref, k string :: { k in ghost.tcContent[c] } (k in ghost.tcContent[c]) <==> ((k in old(ghost.tcContent)[c]) || (c == recv && k == item))
 //@ assume func github.com/keep-network/keep-common/pkg/cache.TimeCache.Has
-//@   modifies ghost.cacheSeen
+//@   modifies ghost.cacheSeen, ghost.tcHit
 //@   ensures ghost.cacheSeen == (old(ghost.cacheSeen) || result)
+//@   ensures result == (item in ghost.tcContent[recv])
+//@   ensures forall c ref :: { ghost.tcHit[c] } ghost.tcHit[c] == ite(c == recv, result, old(ghost.tcHit)[c])
 //@ assume func github.com/keep-network/keep-common/pkg/cache.TimeCache.Sweep
-//@   ensures true
+//@   modifies ghost.tcContent
+//@   ensures forall c ref, k string :: { k in ghost.tcContent[c] } (k in ghost.tcContent[c]) ==> (k in old(ghost.tcContent)[c])
+//@   ensures forall c ref, k string :: { k in ghost.tcContent[c] } c != recv ==> ((k in ghost.tcContent[c]) <==> (k in old(ghost.tcContent)[c]))
 //@ assume func github.com/keep-network/keep-common/pkg/cache.NewTimeCache
 //@   modifies alloc
 //@   ensures result != nil && !old(allocated(result))
